@@ -72,7 +72,9 @@ def rand_reads(rng, limit, budget_bytes, maxn=6, big_ok=True):
             n = rng.randrange(1, 300)
         n = max(0, min(n, BUF, left))
         left -= n
-        e = rng.choices([0, 1, 2, 3], weights=[70, 12, 10, 8])[0]
+        # 0 nil, 1 temporary timeout (retried), fatal kinds: 2 EOF, 3 plain, 4 PERMANENT timeout, 5 temporary non-timeout,
+        # 6 unexpected EOF, 7 net.ErrClosed, 8 net.Error neither timeout nor temporary
+        e = rng.choices([0, 1, 2, 3, 4, 5, 6, 7, 8], weights=[70, 12, 6, 4, 3, 2, 1, 1, 1])[0]
         ent = dict(rand_data(rng, n), e=e)
         if n == 0 and e == 0 and rng.random() < 0.5:
             ent["e"] = 1
@@ -201,16 +203,29 @@ def gen_end_failure(rng, n):
     for k in range(n):
         data = [dict(rand_data(rng, rng.choice([1, 3, 40, 700])), e=0) for _ in range(rng.randrange(1, 3))]
         which = k % 2
-        e = 3 if k % 5 else 2
+        e = [3, 4, 5, 6, 7, 8, 2][k % 7]         # every non-retryable kind, see rand_reads
+        if k % 4 == 3:
+            data = []                           # the failure comes before any byte
         if k % 3 == 0:
             c = {"mode": "relay", "relay": "bidir", "fail_end": which, "fail_e": e, "r0": data if which == 0 else [], "r1": data if which == 1 else []}
             if rng.random() < 0.3:                      # the listener had sent something earlier, then went idle
                 c["r1" if which == 0 else "r0"] = [dict(rand_data(rng, 7), e=0)]
         else:
-            fail = data + [{"d": "", "e": e}]
+            fail = data + ([{"d": "", "e": 1}] if k % 2 else []) + [{"d": "", "e": e}]     # sometimes a retryable timeout first
             w = (k // 2) % 4
             c = {"mode": "free", "limit": 0, "wrap0": bool(w & 1), "wrap1": bool(w & 2), "w0": [], "w1": [],
                  "r0": fail if which == 0 else [], "r1": fail if which == 1 else [], "end0": "hold", "end1": "hold", "sched": []}
+        out.append(c)
+    return out
+
+
+def gen_reqresp(rng, n):
+    """relay over transports with / without half-close: one direction ends early (EOF), the other still has N KB to deliver"""
+    out = []
+    for k in range(n):
+        c = {"mode": "relay", "relay": "bidir", "flow": "reqresp", "fail_end": k % 2, "nocap_a": bool(k & 2), "nocap_b": bool(k & 4),
+             "resp_kb": rng.choice([1, 31, 68, 130])}
+        c["r0" if k % 2 == 0 else "r1"] = [dict(rand_data(rng, rng.choice([3, 40, 500])), e=0)]
         out.append(c)
     return out
 
@@ -250,7 +265,10 @@ def gen_reattach(rng, n):
             pass
         h.append({"op": "closeold", "e": 2})
         sends(0, 2)
-        h.append({"op": "end", "who": rng.choice([0, 1])})
+        if rng.random() < 0.4:
+            h.append({"op": "closerace"})       # Bridge.Close parked in the old source conn's Close() while the source re-attaches
+        else:
+            h.append({"op": "end", "who": rng.choice([0, 1])})
         out.append({"mode": "reattach", "hist": h})
     return out
 
@@ -318,7 +336,7 @@ def case_value(c, o, sliced, bounded=False):
             if op["op"] == "tsend" and op.get("d"):
                 rs.append([hb(op["d"]), 0])
                 sched += [0, 0]
-            elif op["op"] == "reattach":
+            elif op["op"] in ("reattach", "closerace"):
                 sched.append(1)
         return [4, True, None, False, rs, [], [], [], sched, [hb(e) for e in o.get("ends") or []]]
     if c["mode"] == "stall":
@@ -339,6 +357,8 @@ def classify(c, o, sliced):
         return KNOWN_KEY
     if key == "reattach":
         return "reattach-bytes-to-stale-end" if "did not reach the attached source end" in (o.get("prop_msg") or "") else "reattach-tunnel-broken"
+    if key == "closed-early":
+        return "relay-closed-under-live-direction"
     if key == "stalled":
         return "direction-waits-for-opposite-end"
     if key == "stuck" and c["mode"] == "relay":
@@ -389,7 +409,7 @@ def run(ctx, only_cases=None):
     thorough = ctx.tier == "thorough"
     rng = ctx.rng
     binary = vlib.build_harness(PROP)
-    gen_text = vlib.harness_text(binary, ["gen"])
+    gen_text = vlib.harness_text(binary, ["gen", vlib.REPO])     # also reads the lock paths from the syntax tree of this tree
     gen_changed = vlib.write_if_changed(os.path.join(vlib.COQ, "Gen", "%s.v" % PROP), gen_text)
     sliced = bool(re.search(r"probe_limiter_sliced\s*:\s*bool\s*:=\s*true", gen_text))
     broken = None
@@ -412,7 +432,8 @@ def run(ctx, only_cases=None):
         cases += gen_backpressure(rng, 20 if thorough else 4)
         cases += gen_reattach(rng, 300 if thorough else 30)
         cases += gen_adapter(rng, 48 if thorough else 12)
-        cases += gen_end_failure(rng, 60 if thorough else 12)
+        cases += gen_end_failure(rng, 112 if thorough else 28)
+        cases += gen_reqresp(rng, 32 if thorough else 8)
     # the start race can kill the harness process (nil dereference inside a goroutine of Bridge.Start): own process
     race_cases = [c for c in cases if c["mode"] == "startrace"]
     cases = [c for c in cases if c["mode"] != "startrace"]
@@ -495,7 +516,8 @@ def run(ctx, only_cases=None):
             "bytes_through_real_code": 0, "closer_direction_0": 0, "closer_direction_1": 0, "duplicate_tunnel_ids": 0,
             "stats_backend_stalled": 0, "final_report_parked": 0, "forget_required_while_parked": 0,
             "write_parked_at_teardown": 0, "source_reattach_histories": 0, "reattaches": 0,
-            "adapter_wrapped_end": 0, "one_sided_traffic_both_ends_open": 0, "end_fails_non_eof": 0, "half_close_relay": 0}
+            "adapter_wrapped_end": 0, "one_sided_traffic_both_ends_open": 0, "end_fails_non_eof": 0, "half_close_relay": 0,
+            "permanent_timeout_failure": 0, "close_races_reattach": 0, "relay_end_without_half_close": 0, "early_eof_other_direction_live": 0}
     for c, o in zip(cases, outs):
         h = hashlib.sha256(json.dumps(c, sort_keys=True).encode()).hexdigest()
         distinct.add(h)
@@ -503,8 +525,12 @@ def run(ctx, only_cases=None):
         dist["adapter_wrapped_end"] += bool(c.get("wrap0") or c.get("wrap1"))
         dist["one_sided_traffic_both_ends_open"] += m == "free" and bool(c.get("deliver_ms")) and (not c.get("r0") or not c.get("r1"))
         dist["end_fails_non_eof"] += (m == "relay" and c.get("fail_e") == 3) or (m == "free" and any(r["e"] == 3 for r in c.get("r0", []) + c.get("r1", [])))
+        dist["permanent_timeout_failure"] += (m == "relay" and c.get("fail_e") == 4) or any(r["e"] == 4 for r in c.get("r0", []) + c.get("r1", []))
+        dist["close_races_reattach"] += m == "reattach" and any(op["op"] == "closerace" for op in c.get("hist", []))
         if m == "relay":
             dist["half_close_relay"] += 1
+            dist["relay_end_without_half_close"] += bool(c.get("nocap_a") or c.get("nocap_b"))
+            dist["early_eof_other_direction_live"] += c.get("flow") == "reqresp"
             dist["bytes_through_real_code"] += o.get("len0", 0) + o.get("len1", 0)
             if o.get("returned"):
                 nontrivial.add(h)
@@ -565,7 +591,11 @@ def run(ctx, only_cases=None):
                 "message transports (reached through streamDataForwarderAdapter; ReadAvailable idles out after 1.5 s like the real one after 5 s), one-sided "
                 "traffic while both ends stay open must arrive within 0.6 s. end-failure cases: a non-EOF read error on one end after some bytes while the "
                 "opposite direction is idle — server bridge (raw and adapter ends; the bridge must end without help) and the half-close relay "
-                "iocopy.Bidirectional (the listening peer must see a half-close/closure, then the relay must return).",
+                "iocopy.Bidirectional (the listening peer must see a half-close/closure, then the relay must return). failure kinds: net.Error with every "
+                "(Timeout, Temporary) pair, io.EOF, io.ErrUnexpectedEOF, net.ErrClosed, plain errors, before any byte and after some, both ends; a failed "
+                "connection keeps failing. closerace: Bridge.Close parked inside the old source connection's Close() while SetSourceConnection runs. "
+                "reqresp relay cases: ends with / without CloseWrite, the requester EOFs early, the responder then sends 1..130 KB: nothing may be closed "
+                "before both directions ended and every byte must arrive.",
         "samples": [{"case": brief(cases[i]), "observed": {k: v for k, v in outs[i].items() if k in ("prop_ok", "len0", "len1", "cnt0", "cnt1", "closer", "order", "life", "nrd", "nwr", "total")}} for i in pick],
         "model_vs_impl_cases": len(terms), "model_vs_impl_mismatches": len(mism), "impl_property_failures": nfail,
         "input_distribution": dist, "generated_file_changed": gen_changed,
